@@ -66,3 +66,13 @@ chk("C03",
     "assembly correspondence, set_fixed_node_entries correspondence. Oracle: every set-point clause on res_* tables.",
     "Pump curve and circulation-pump lift are checked by the oracle only; compressor lift rule is hand-modelled.",
     "Lean 4 proof over assembly model + generated kernels; correspondence; set-point oracle search", "8/C03")
+chk("C06",
+    "Lean theorems over the grouped-sum / lookup model: the bucket (numba) implementation equals the specification 'sum of all "
+    "values carrying the key' for every input; per-key sums and reported keys are invariant under any row permutation; under an "
+    "injective relabelling the sum for sigma(k) is the former sum for k; index lookup commutes with injective relabelling and "
+    "returns the row carrying the label. The numpy variant (sort + cumsum + run-end differences) is part of the executable model "
+    "and is tied, together with the other two, to _sum_by_group_np/_numba by exact integer correspondence (labels to 5e6, around "
+    "the 1e5 / 2 len / 10 len switch). Oracle: every generated net vs. its relabelled, row-permuted, re-ordered variant.",
+    "cumsum-difference = run sum of the numpy variant is validated by correspondence, not yet proved; the pit builders' "
+    "equivariance is covered by the variant oracle only.",
+    "Lean 4 proof over grouped-sum/lookup model; exact correspondence; metamorphic relabel/permute search", "8/C06")
